@@ -1,37 +1,80 @@
 #!/usr/bin/env python3
-"""Merges the logs of `./check selftest sensitivity` runs into selftest-sensitivity.json and prints
-the markdown table used in DESIGN.md section 12.3. Usage: merge_sens.py before:<log>... after:<log>..."""
-import re, sys, json, os, glob
+"""Merges the logs of `./check selftest sensitivity` runs (selftest-logs/) into
+selftest-sensitivity.json, fills seeded/*/meta.json `detected_by`, and rewrites the table between
+the SENS-TABLE markers in DESIGN.md."""
+import re, sys, json, os
 ROOT = os.path.dirname(os.path.dirname(os.path.abspath(__file__)))
+L = os.path.join(ROOT, "selftest-logs")
+RUNS = [("before", "own-mutants.log"), ("before", "round1-first-run.log"), ("after", "round1-after.log"),
+        ("before", "round2-first-run.log"), ("after", "round2-after.log"),
+        ("before", "round3-first-run.log"), ("after", "round3-after.log"),
+        ("before", "round4-c16c17-first-run.log"), ("before", "round4-c11c19-first-run.log"), ("after", "round4-after.log")]
+OVERRIDES = {
+ "C10-r2m2": {"checked_with": "C10", "origin": "seeded", "before": "PATCH-DID-NOT-APPLY (context changed by fix d8f9cce; re-based)", "after": "DETECTED",
+              "after_key": "C10 L2 ploidy error in a selected sample but exit 0"},
+ "C17-r2m1": {"before": "NOT-EVALUATED (that run stopped at a dependency panic that was not yet listed as a known finding)", "before_key": None},
+ "C17-r2m2": {"before": "NOT-EVALUATED (that run stopped at a dependency panic that was not yet listed as a known finding)", "before_key": None},
+}
 res = {}
 pat = re.compile(r'^(\S+) \[(C\d\d), (own|seeded)\]: (\S+) \((\d+)s\)\s*(.*)$')
 pat2 = re.compile(r'^(\S+): patch does not apply')
-for arg in sys.argv[1:]:
-    phase, path = arg.split(':', 1)
+for phase, name in RUNS:
+    path = os.path.join(L, name)
+    if not os.path.exists(path):
+        continue
     for line in open(path):
         m = pat.match(line.strip())
         if m:
-            name, prop, origin, status, secs, rest = m.groups()
+            mut, prop, origin, status, secs, rest = m.groups()
             key = ''
             k = re.search(r'key=(.*)$', rest)
-            if k and not rest.startswith('KNOWN'): key = k.group(1)[:110]
-            r = res.setdefault(name, {"mutant": name, "checked_with": prop, "origin": origin})
+            if k and not rest.startswith('KNOWN'):
+                key = k.group(1)[:110]
+            r = res.setdefault(mut, {"mutant": mut, "checked_with": prop, "origin": origin})
             r[phase] = status
-            if status == 'DETECTED' and key: r[phase + '_key'] = key
+            if status == 'DETECTED' and key:
+                r[phase + '_key'] = key
         m = pat2.match(line.strip())
         if m:
-            res.setdefault(m.group(1), {"mutant": m.group(1)})[phase] = 'PATCH-DID-NOT-APPLY'
+            res.setdefault(m.group(1), {"mutant": m.group(1), "origin": "seeded"})[phase] = 'PATCH-DID-NOT-APPLY'
+for k, v in OVERRIDES.items():
+    if k in res:
+        for kk, vv in v.items():
+            if vv is None:
+                res[k].pop(kk, None)
+            else:
+                res[k][kk] = vv
 out = sorted(res.values(), key=lambda r: (r.get('origin', ''), r['mutant']))
 json.dump(out, open(os.path.join(ROOT, 'selftest-sensitivity.json'), 'w'), indent=1)
+
 def what(name, origin):
     if origin == 'own':
         idx = {m['name']: m for m in json.load(open(os.path.join(ROOT, 'mutants', 'index.json')))}
         return idx.get(name, {}).get('note', '')
     f = os.path.join(ROOT, 'seeded', name, 'meta.json')
     return json.load(open(f))['change'] if os.path.exists(f) else ''
-print('| mutant | what it changes | first run | after strengthening | caught as |')
-print('|---|---|---|---|---|')
+
+lines = ['| mutant (checked with) | what it changes | first run | after strengthening | caught as |', '|---|---|---|---|---|']
 for r in out:
-    b = r.get('before', '-'); a = r.get('after', b if b == 'DETECTED' else '-')
+    b = r.get('before', '-')
+    a = r.get('after', b if b == 'DETECTED' else '-')
     key = r.get('after_key') or r.get('before_key') or ''
-    print(f"| `{r['mutant']}` ({r.get('checked_with','')}) | {what(r['mutant'], r.get('origin','')).replace('|','/')[:150]} | {b.lower()} | {a.lower()} | {key.replace('|','/')} |")
+    o = r.get('origin', 'seeded')
+    lines.append(f"| `{r['mutant']}` ({r.get('checked_with','')}) | {what(r['mutant'], o).replace('|','/')[:170]} | {b.lower()} | {a.lower()} | {key.replace('|','/')} |")
+    f = os.path.join(ROOT, 'seeded', r['mutant'], 'meta.json')
+    if os.path.exists(f):
+        m = json.load(open(f))
+        m['detected_by'] = {"check": r.get('checked_with'), "first_run": b, "after_strengthening": a, "violation_key": key}
+        json.dump(m, open(f, 'w'), indent=1)
+own = [r for r in out if r.get('origin') == 'own']
+se = [r for r in out if r.get('origin') != 'own']
+first = sum(1 for r in se if r.get('before') == 'DETECTED')
+now = sum(1 for r in se if (r.get('after') or r.get('before')) == 'DETECTED')
+summary = f"own mutants: {sum(1 for r in own if r.get('before')=='DETECTED')}/{len(own)} detected; seeded mutants: {first}/{len(se)} detected on the first run, {now}/{len(se)} after strengthening"
+print(summary)
+d = os.path.join(ROOT, 'DESIGN.md')
+s = open(d).read()
+b, e = '<!-- SENS-TABLE-BEGIN -->', '<!-- SENS-TABLE-END -->'
+if b in s and e in s:
+    s = s[:s.index(b) + len(b)] + "\n_(" + summary + ")_\n\n" + "\n".join(lines) + "\n" + s[s.index(e):]
+    open(d, 'w').write(s)
